@@ -175,7 +175,7 @@ CLAIMED = {
              "table and the header pattern is applied only to lines that start with '[' and end with ']'; section names, keys and values reach "
              "their constructors only as trimmed text and the empty-quotes normalisation is made on the trimmed value; a line byte compared with a constant is read through a type that can hold the constant, and the byte-order-mark tests skip exactly the length of the "
              "standard mark the line starts with (C16.8, byte-test form only); a hand-built string is terminated before it is read as one and no clamp cuts below the longest line fgets delivers (C16.1). What the scanf patterns accept "
-             "beyond that table agreement is not decided. " + DECIDES % "C16",
+             "beyond that table agreement is not decided. The trim helper sizes its result from two cursors that every path to the allocation has ordered (C16.7). " + DECIDES % "C16",
         technique="format-string conversion bounds against array types, single-producer who-calls rule, restricted guard dataflow typestate for line/file/section, format-table agreement with edge-cut dominance of the header guards, raw/trimmed typestate of the text buffers"),
     "C17": dict(
         text="Rules C17.1-C17.5 on psocketaddress.c: every access through the native/destination buffer lies below the established length "
